@@ -18,6 +18,20 @@
 #include <upipe/uref.h>
 #include <upipe/ubuf.h>
 #include <upipe/ubuf_block.h>
+#include <upipe/uref_attr.h>
+#include <string.h>
+/* attributes the frame conversion reads and writes: the numbered attribute h26x.n[i] (offset of NAL i+1) is an array
+ * indexed by i — the name formatting (vsnprintf) is dropped — and b.header is one cell; every other attribute is absent */
+#define NALMAX 3
+static uint64_t g_naloff[NALMAX]; static bool g_naloff_set[NALMAX]; static uint64_t g_hdr; static bool g_hdr_set; static int g_attr_bad;
+static int stub_num_get(struct uref *u, uint64_t *p, uint64_t idx) { if (idx >= NALMAX || !g_naloff_set[idx]) return UBASE_ERR_INVALID; *p = g_naloff[idx]; return UBASE_ERR_NONE; }
+static int stub_num_set(struct uref *u, uint64_t v, uint64_t idx) { if (idx >= NALMAX) { g_attr_bad++; return UBASE_ERR_INVALID; } g_naloff[idx] = v; g_naloff_set[idx] = true; return UBASE_ERR_NONE; }
+static int stub_named_get(struct uref *u, uint64_t *p, const char *name) { if (strcmp(name, "b.header") || !g_hdr_set) return UBASE_ERR_INVALID; *p = g_hdr; return UBASE_ERR_NONE; }
+static int stub_named_set(struct uref *u, uint64_t v, const char *name) { if (strcmp(name, "b.header")) { g_attr_bad++; return UBASE_ERR_INVALID; } g_hdr = v; g_hdr_set = true; return UBASE_ERR_NONE; }
+#define uref_attr_get_unsigned_va(u, p, t, fmt, idx) stub_num_get(u, p, idx)
+#define uref_attr_set_unsigned_va(u, v, t, fmt, idx) stub_num_set(u, v, idx)
+#define uref_attr_get_unsigned(u, p, t, name) stub_named_get(u, p, name)
+#define uref_attr_set_unsigned(u, v, t, name) stub_named_set(u, v, name)
 #include <upipe/uref_block.h>
 #include <upipe/uref_block_flow.h>
 #define FMAX 20
@@ -61,6 +75,7 @@ static struct ubuf *stub_dup_hdr(struct ubuf *ubuf)
     g_ins.b[0] = 0; g_ins.b[1] = 0; g_ins.b[2] = 0; g_ins.b[3] = 1; g_ins.len = 4;
     return &g_ins_ubuf;
 }
+static int stub_frame_size(struct uref *u, size_t *size_p) { *size_p = g_frame.len; return UBASE_ERR_NONE; }
 static int stub_blk_size(struct ubuf *ubuf, size_t *size_p) { if (ubuf != &g_ins_ubuf) return UBASE_ERR_INVALID; *size_p = g_ins.len; return UBASE_ERR_NONE; }
 #define uref_block_extract stub_extract
 #define uref_block_delete stub_delete
@@ -68,6 +83,7 @@ static int stub_blk_size(struct ubuf *ubuf, size_t *size_p) { if (ubuf != &g_ins
 #define ubuf_block_alloc_from_opaque stub_from_opaque
 #define ubuf_dup stub_dup_hdr
 #define ubuf_block_size stub_blk_size
+#define uref_block_size stub_frame_size
 #include "lib/upipe-framers/upipe_h26x_common.c"
 #include "vspec.h"
 
@@ -146,6 +162,72 @@ void h_roundtrip(void)
     VPOST(r1 == UBASE_ERR_NONE && r2 == UBASE_ERR_NONE && r3 == UBASE_ERR_NONE && r4 == UBASE_ERR_NONE);
     VPOST(g_frame.len == 4 + (size_t)plen && ns == 4 + (uint64_t)plen && c == 0);
     VPOST(gi >= g_frame.len || g_frame.b[gi] == orig[gi]);
+    VCANARY();
+}
+
+/* ---- the frame loop: upipe_h26xf_convert_frame over a frame of two NAL units ----------------------------------------
+ * frame = prefix_A(n1) payload1 prefix_A(n2) payload2, attribute h26x.n[0] = offset of the second unit.  Converting A -> B:
+ *   accepted ==> frame' = prefix_B(n1) payload1 prefix_B(n2) payload2 (every payload octet, in order: ghost index),
+ *                h26x.n[0] is the new offset of the second unit;
+ *   then B -> A gives back the original octets when A is Annex B with 4-octet start codes or LENGTH4. */
+static size_t put_prefix(uint8_t *b, size_t at, int enc, size_t n, bool sc3)
+{
+    if (enc == UREF_H26X_ENCAPS_NALU) return 0;
+    if (enc == UREF_H26X_ENCAPS_ANNEXB) { if (sc3) { b[at] = 0; b[at + 1] = 0; b[at + 2] = 1; return 3; } b[at] = 0; b[at + 1] = 0; b[at + 2] = 0; b[at + 3] = 1; return 4; }
+    size_t k = enc == UREF_H26X_ENCAPS_LENGTH1 ? 1 : enc == UREF_H26X_ENCAPS_LENGTH2 ? 2 : 4;
+    for (size_t j = 0; j < 4; j++) { if (j >= k) break; b[at + j] = (uint8_t)(n >> (8 * (k - 1 - j))); }
+    return k;
+}
+#ifndef PMAX
+#define PMAX 3
+#endif
+void h_convert(void)
+{
+    BUILD_FRAME();
+    VIN(int, av); VIN(int, bv); VIN(uint8_t, n1); VIN(uint8_t, n2); VIN(uint8_t, sc3a); VIN(uint8_t, sc3b); VIN_ARR(uint8_t, pay, 2 * PMAX);
+#ifdef AENC
+    VASSUME(av == AENC);           /* case split on the input encapsulation (one group per value) */
+#endif
+    VASSUME(av >= UREF_H26X_ENCAPS_NALU && av <= UREF_H26X_ENCAPS_LENGTH4 && av != UREF_H26X_ENCAPS_LENGTH_UNKNOWN);
+    VASSUME(bv >= UREF_H26X_ENCAPS_NALU && bv <= UREF_H26X_ENCAPS_LENGTH4 && bv != UREF_H26X_ENCAPS_LENGTH_UNKNOWN);
+    VASSUME(n1 >= 1 && n1 <= PMAX && n2 >= 1 && n2 <= PMAX && !g_fail_alloc && !g_fail_insert);
+#ifdef AENC
+    enum uref_h26x_encaps A = (enum uref_h26x_encaps)AENC, B = (enum uref_h26x_encaps)bv;
+#else
+    enum uref_h26x_encaps A = (enum uref_h26x_encaps)av, B = (enum uref_h26x_encaps)bv;
+#endif
+    /* (an Annex B payload does not start with 00 00 0x: a start code is recognised by its octets) */
+    size_t at = 0;
+    at += put_prefix(g_frame.b, at, A, n1, (sc3a & 1) != 0); size_t p1 = at;
+    for (int k = 0; k < PMAX; k++) { if (k >= n1) break; g_frame.b[at++] = pay[k]; }
+    size_t off2 = at;
+    at += put_prefix(g_frame.b, at, A, n2, (sc3b & 1) != 0); size_t p2 = at;
+    for (int k = 0; k < PMAX; k++) { if (k >= n2) break; g_frame.b[at++] = pay[PMAX + k]; }
+    g_frame.len = at;
+    for (int k = 0; k < NALMAX; k++) g_naloff_set[k] = false;
+    g_naloff[0] = off2; g_naloff_set[0] = true; g_hdr_set = false; g_attr_bad = 0;
+    uint8_t orig[FMAX]; size_t orig_len = g_frame.len; for (int k = 0; k < FMAX; k++) orig[k] = g_frame.b[k];
+    int ret = upipe_h26xf_convert_frame(&g_uref, A, B, NULL, &g_annexb_ubuf);
+    VPOST(ret == UBASE_ERR_NONE && g_ops_bad == 0 && g_attr_bad == 0);
+    /* expected frame */
+    uint8_t exp[FMAX]; for (int k = 0; k < FMAX; k++) exp[k] = 0; size_t e = 0;
+    if (A == B) { for (int k = 0; k < FMAX; k++) exp[k] = orig[k]; e = orig_len; }
+    else {
+        e += put_prefix(exp, e, B, n1, false); for (int k = 0; k < PMAX; k++) { if (k >= n1) break; exp[e++] = pay[k]; }
+        size_t eoff2 = e;
+        e += put_prefix(exp, e, B, n2, false); for (int k = 0; k < PMAX; k++) { if (k >= n2) break; exp[e++] = pay[PMAX + k]; }
+        VPOST(g_naloff_set[0] && g_naloff[0] == eoff2 && !g_naloff_set[1]);          /* the units are still delimited */
+    }
+    VPOST(g_frame.len == e);
+    VPOST(gi >= e || gi >= FMAX || g_frame.b[gi] == exp[gi]);
+#ifdef ROUNDTRIP
+    /* and back: original octets when A used 4-octet start codes or length prefixes */
+    if (A != B && ((A == UREF_H26X_ENCAPS_ANNEXB && !(sc3a & 1) && !(sc3b & 1)) || A == UREF_H26X_ENCAPS_LENGTH4 || A == UREF_H26X_ENCAPS_LENGTH1 || A == UREF_H26X_ENCAPS_LENGTH2)) {
+        int r2 = upipe_h26xf_convert_frame(&g_uref, B, A, NULL, &g_annexb_ubuf);
+        VPOST(r2 == UBASE_ERR_NONE && g_frame.len == orig_len && g_naloff[0] == off2);
+        VPOST(gi >= orig_len || gi >= FMAX || g_frame.b[gi] == orig[gi]);
+    }
+#endif
     VCANARY();
 }
 #ifdef VENTRY
